@@ -28,6 +28,7 @@ CONSTANTS
   Funds0 = "1000000"
   Actions <- MCActions
   GovEventsC <- GovC
+  Prefix <- PrefixC
   NativeAmounts = {}
   MaxDepth = 3
   MaxBlocks = 2
